@@ -40,7 +40,7 @@ def ExtSpec (len : Nat) (m : Bytes) (top : Cfg → Iter) : Iter → Iter → Pro
   | .ret true c', y => y = .ret true (c'.ext m)
   | .ret false c', y =>
     if c'.st.stage = .done then ∃ c'', y = .ret false c'' ∧ c''.st.stage = .done ∧ c''.out = c'.out
-    else c'.buf.length ≤ len ∧ (y = top (c'.ext m) ∨ ∃ o, y = .threw .extCrlf o)
+    else c'.buf.length ≤ len ∧ (y = top (c'.ext m) ∨ (ChunkedSets.extCommit = true ∧ ∃ o, y = .threw .extCrlf o))
 
 theorem ExtSpec.mono {len len' : Nat} {m : Bytes} {top : Cfg → Iter} {x y : Iter} (h : ExtSpec len m top x y) (hl : len ≤ len') :
     ExtSpec len' m top x y := by
@@ -166,7 +166,7 @@ theorem iterU_ext (relaxed : Bool) (c : Cfg) (m : Bytes) :
       refine ⟨b5, ?_⟩
       rcases b6 with heq | hbad
       · left; rw [heq]
-      · right; rw [hbad]; exact ⟨_, rfl⟩
+      · right; rw [hbad.2]; exact ⟨hbad.1, _, rfl⟩
     | next c' =>
       obtain ⟨b1, b2, b3, b4⟩ := phaseExt_next_ext m hp
       rw [b1]
@@ -221,7 +221,7 @@ def LoopSpec (relaxed : Bool) (len : Nat) (m : Bytes) (F : Nat) : Outcome → Ou
   | .ret true c', y => y = .ret true (c'.ext m)
   | .ret false c', y =>
     if c'.st.stage = .done then ∃ c'', y = .ret false c'' ∧ c''.st.stage = .done ∧ c''.out = c'.out
-    else c'.buf.length ≤ len ∧ (y = parseLoopU relaxed F (c'.ext m) ∨ ∃ o, y = .threw .extCrlf o)
+    else c'.buf.length ≤ len ∧ (y = parseLoopU relaxed F (c'.ext m) ∨ (ChunkedSets.extCommit = true ∧ ∃ o, y = .threw .extCrlf o))
 
 theorem parseLoopU_ext (relaxed : Bool) (m : Bytes) : ∀ (f : Nat) (c : Cfg) (F : Nat), c.buf.length < f → (c.buf ++ m).length < F →
     LoopSpec relaxed c.buf.length m F (parseLoopU relaxed f c) (parseLoopU relaxed F (c.ext m)) := by
@@ -282,8 +282,8 @@ theorem parseLoopU_ext (relaxed : Bool) (m : Bytes) : ∀ (f : Nat) (c : Cfg) (F
             exact ⟨c'', rfl, e2, e3⟩
           · simp only [hd, if_false] at hx ⊢
             refine ⟨hx.1, ?_⟩
-            rcases hx.2 with heq | ⟨o, hbad⟩
+            rcases hx.2 with heq | ⟨hq, o, hbad⟩
             · left; rw [heq]; simp only [parseLoopU]
-            · right; rw [hbad]; exact ⟨o, rfl⟩
+            · right; rw [hbad]; exact ⟨hq, o, rfl⟩
 
 end SquidModel.Chunked
